@@ -60,6 +60,8 @@ class Check:
     thorough_examples = 20000               # Hypothesis cases per shard, thorough tier
     thorough_shards = 16
     chunk = 1000                            # cases per @given run (a fresh derived seed each)
+    fuzz_seconds = 0                        # thorough tier: length of the additional Atheris campaign (0 = none)
+    fuzz_processes = 8
     trusted_base: List[str] = []
 
     def strategy(self, tier: str):
@@ -295,6 +297,48 @@ def hypothesis_search(sess: Session, tier: str, seed_value: int, n_examples: int
     return True
 
 
+def fuzz_campaign(sess: Session, check: Check, seconds: float) -> Dict[str, Any]:
+    """Runs pbt.fuzz (Atheris, coverage-guided, structured through the check's Hypothesis strategy) in parallel processes
+    from empty corpora and merges what they found.  An additional explorer, never the only one."""
+    import shutil
+    import subprocess
+    try:
+        import atheris  # noqa: F401
+    except Exception as e:
+        return {'engine': 'atheris', 'status': f'skipped: atheris not importable ({type(e).__name__})'}
+    work = os.path.join(VERIF, '.work', 'fuzz', check.pid)
+    shutil.rmtree(work, ignore_errors=True)
+    os.makedirs(work, exist_ok=True)
+    procs = []
+    for i in range(check.fuzz_processes):
+        out = os.path.join(work, f'out{i}.json')
+        cmd = [sys.executable, '-W', 'ignore', '-m', 'pbt.fuzz', check.pid, str(int(seconds)), out, os.path.join(work, f'corpus{i}'), f'-seed={i + 1}']
+        procs.append((out, subprocess.Popen(cmd, cwd=VERIF, stdout=subprocess.DEVNULL, stderr=subprocess.DEVNULL)))
+    info: Dict[str, Any] = {'engine': 'atheris (libFuzzer) driving the check strategy via hypothesis fuzz_one_input', 'processes': len(procs),
+                            'seconds_each': int(seconds), 'cases': 0, 'corpus_entries': 0, 'status': 'ran'}
+    for out, p in procs:
+        try:
+            p.wait(timeout=seconds + 120)
+        except subprocess.TimeoutExpired:
+            p.kill()
+        if os.path.exists(out):
+            with open(out) as f:
+                r = json.load(f)
+            info['cases'] += r['cases']
+            sess.stats.merge(dict(cases=r['cases'], evaluations=r['evaluations'], enumerated=0, nontrivial=r['nontrivial'], classes=r['classes'],
+                                  excluded_known=r['excluded_known'], samples=[], class_samples={}))
+            for bucket, f_ in r['failures'].items():
+                cur = sess.failures.get(bucket)
+                if cur is None or f_['size'] < cur['size']:
+                    sess.failures[bucket] = f_
+    for i in range(len(procs)):
+        d = os.path.join(work, f'corpus{i}')
+        if os.path.isdir(d):
+            info['corpus_entries'] += len(os.listdir(d))
+    shutil.rmtree(work, ignore_errors=True)
+    return info
+
+
 def enumerate_cases(sess: Session, specs: Iterable[Any], deadline_at: float) -> bool:
     for spec in specs:
         if time.time() > deadline_at:
@@ -384,6 +428,7 @@ def run_check(check: Check, tier: str, seed_value: int, replay: Optional[str] = 
     complete = True
     exhaustive = False
     enum_complete = None
+    fuzz_info: Optional[Dict[str, Any]] = None
 
     try:
         # 1. known-finding witnesses: still failing -> KNOWN-FINDING line
@@ -441,6 +486,8 @@ def run_check(check: Check, tier: str, seed_value: int, replay: Optional[str] = 
                         sess.failures[bucket] = f
             if enum_flags:
                 enum_complete = all(enum_flags)
+            if check.fuzz_seconds and time.time() < deadline_at:
+                fuzz_info = fuzz_campaign(sess, check, min(check.fuzz_seconds, max(10.0, deadline_at - time.time())))
         exhaustive = bool(enum_complete) and check.exhaustive_note(tier) is not None
 
         missing = [c for c in check.required_classes if not sess.stats.classes.get(c)]
@@ -487,6 +534,8 @@ def run_check(check: Check, tier: str, seed_value: int, replay: Optional[str] = 
     note = check.exhaustive_note(tier)
     if note:
         coverage['exhaustive_note'] = note
+    if fuzz_info is not None:
+        coverage['fuzz_campaign'] = fuzz_info
     evidence = dict(
         property_id=pid, tier=tier, seed=seed_value, level=check.level, coverage=coverage,
         assumptions=check.assumptions, wall_s=round(time.time() - t0, 2), violations=len(violations),
